@@ -879,3 +879,42 @@ Lemma new_blank_id :
      get_pixel (page_new id w h) x y = Some false)
   /\ (forall id w h, page_id (page_new id w h) = Some id).
 Proof. split; [exact new_blank | exact new_id]. Qed.
+
+(* ------------------------------------------------------------------------- *)
+(** * A redundant edit changes nothing *)
+
+Lemma put_bit_same_sweep :
+  nrangeb 256 (fun b => nrangeb 8 (fun k => put_bit b k (N.testbit b k) =? b)) = true.
+Proof. vm_compute. reflexivity. Qed.
+
+Lemma put_bit_same b k : b < 256 -> k < 8 -> put_bit b k (N.testbit b k) = b.
+Proof.
+  intros Hb Hk.
+  pose proof (nrangeb_spec 256 _ put_bit_same_sweep b Hb) as H1. cbv beta in H1.
+  pose proof (nrangeb_spec 8 _ H1 k Hk) as H2. cbv beta in H2.
+  apply N.eqb_eq. exact H2.
+Qed.
+
+Lemma set_nth_same_value {A} : forall i (x : A) l, nth_error l i = Some x -> set_nth i x l = Some l.
+Proof.
+  induction i as [|i IH]; intros x [|y l] H; try discriminate.
+  - cbn in H. injection H as ->. reflexivity.
+  - cbn in H. cbn [set_nth]. rewrite (IH x l H). reflexivity.
+Qed.
+
+(* Setting a pixel to the value it already has leaves the page exactly as it was: bytes, header, padding, size. *)
+Lemma set_pixel_redundant p x y v :
+  wf_page p -> get_pixel p x y = Some v -> set_pixel p x y v = Some p.
+Proof.
+  intros Hwf Hg.
+  assert (Hin : x < p_w p /\ y < p_h p).
+  { destruct (N.lt_ge_cases x (p_w p)) as [Hx|Hx]; [destruct (N.lt_ge_cases y (p_h p)) as [Hy|Hy]; [split; assumption|]|];
+      rewrite get_pixel_out in Hg by auto; discriminate. }
+  destruct Hin as [Hx Hy].
+  destruct (get_pixel_in p x y Hwf Hx Hy) as (byte & Hn & Hb & Hget).
+  rewrite Hget in Hg. injection Hg as <-.
+  unfold set_pixel. rewrite (index_in p x y Hx Hy). cbv zeta. rewrite Hn.
+  fold (put_bit byte (y mod 8) (N.testbit byte (y mod 8))).
+  rewrite (put_bit_same byte (y mod 8) Hb (mod8_lt y)).
+  rewrite (set_nth_same_value _ _ _ Hn). destruct p; reflexivity.
+Qed.
